@@ -42,6 +42,8 @@ T = [
 ("C10","fix: BasePathFS let paths","BasePathFS: '/../x', '../../x' after Chdir and relative paths reached files above the base directory (read, create, rename onto, remove), and Getwd, Abs, and error-path translation panicked in FromBasePath"),
 ("C06","fix: concurrent MemFS.Rename calls deadlocked","concurrent MemFS.Rename: lock-order deadlocks (opposite renames; rename into the parent against Remove/RemoveAll/ReadDir of the parent), two winners for one source or destination (node under two names, stale link counter, replaced concurrent create), two directories renamed into each other (detached cycle)"),
 ("C05","fix: MemFS.RemoveAll left the entries of deleted nodes","MemFS.RemoveAll: a refused RemoveAll, or one running next to a Rename out of the tree, left directory entries naming nodes it had already deleted (size 0, link count 0; link counter of the survivors wrong)"),
+("C08","fix: MemFS cleared the target of a removed symbolic link","data race between MemFS.searchNode (reads the target of a symbolic link without the node lock) and Remove/RemoveAll/Rename resetting the target of the link they remove or replace (3 threads: OpenFile || Rename onto the link || Symlink)"),
+("C06","fix: MemFS.Link acted on a source that a concurrent Remove","MemFS.Link || Remove/Rename of its source (also with a third thread creating the new name): Link added a name for an already removed file, or answered EEXIST where every sequential order gives ENOENT (source never re-validated once the destination directory was locked)"),
 ]
 log = subprocess.check_output(['git','-C','/repo','log','--format=%h %s','adfd2e3..HEAD']).decode().strip().split('\n')
 subj = {}
